@@ -6,12 +6,24 @@ import numpy as np
 from . import expr as E
 
 
-GRID_FUNS = {
-    "sq": lambda N: [(k / N) ** 2 for k in range(N + 1)],
-    "sqrt": lambda N: [math.sqrt(k / N) for k in range(N + 1)],
-    "cheb": lambda N: [0.5 * (1 - math.cos(math.pi * k / N)) for k in range(N + 1)],
-    "lin": lambda N: [k / N for k in range(N + 1)],
-}
+def _grid_sq(N):
+    return [(k / N) ** 2 for k in range(N + 1)]
+
+
+def _grid_sqrt(N):
+    return [math.sqrt(k / N) for k in range(N + 1)]
+
+
+def _grid_cheb(N):
+    return [0.5 * (1 - math.cos(math.pi * k / N)) for k in range(N + 1)]
+
+
+def _grid_lin(N):
+    return [k / N for k in range(N + 1)]
+
+
+# module-level functions (not lambdas): an OCP whose method holds a FunctionGrid must stay picklable (ocp.save)
+GRID_FUNS = {"sq": _grid_sq, "sqrt": _grid_sqrt, "cheb": _grid_cheb, "lin": _grid_lin}
 
 
 def density_expr(spec, tau):
